@@ -10,7 +10,11 @@
 //     (run 1 = reference in a pristine process state, run 2 = the same history repeated),
 // so that every run starts from the process-global state of a fresh process.  After each call it
 // records: return value, FNV-1a hash + non-zero count of the PCM the call returned, FNV-1a hash +
-// count of the register-tap records (hook H1: W/P/G) the call produced.  In a ThreadSanitizer
+// count of the register-tap records (hook H1: W/P/G) the call produced, and in clear the panning decisions of
+// the call (pw = values handed to writePan, lr = L/R bits of the 0xB4 write that follows).  The observed run
+// recycles released C++ heap blocks unchanged (see g_recycle), solo run 2 starts from a dirty heap.
+// Calls: Create On Off Ctl(ch,c,v) Bend(ch,v) Set(s,v: softpan bright smod vmodel lfofreq arp alloc) Gen Play
+// Switch Chips Reset Pcm Fam Lfo Load Panic Close.  In a ThreadSanitizer
 // build the observed child's report is captured and its racing locations are recorded.
 // Nothing is compared here: spec/IsolationTrace.tla pairs observations with the solo runs.
 //
@@ -54,26 +58,76 @@ static const int MAXFR = 16384;
 // sees), solo run 2 uses a byte sequence: output that depends on uninitialised heap memory then differs between the
 // two repetitions instead of depending on allocator luck.
 static volatile int g_fill = 0;
+// g_recycle (observed run): a block released by operator delete is handed out again AS IT IS by the next operator new of the
+// same size (LIFO per size - what a plain malloc does; AddressSanitizer's quarantine never reuses a block), so that what one
+// instance leaves behind on the heap is what an instance created later finds in its "fresh" objects.  Blocks that were never
+// used before are filled as in the solo runs.  Every block carries a 16-byte header (size, link); cached blocks stay poisoned.
+static volatile int g_recycle = 0;
 #if !ISO_TSAN   // the ThreadSanitizer runtime brings its own (strong) operator new
+#if ISO_ASAN
+#  include <sanitizer/asan_interface.h>
+#  define ISO_POISON(p, n)   ASAN_POISON_MEMORY_REGION((p), (n))
+#  define ISO_UNPOISON(p, n) ASAN_UNPOISON_MEMORY_REGION((p), (n))
+#else
+#  define ISO_POISON(p, n)   ((void)0)
+#  define ISO_UNPOISON(p, n) ((void)0)
+#endif
+struct IsoHdr { size_t n; IsoHdr *next; };                       // sizeof = 16: the user block keeps malloc's alignment
+static const size_t ISO_BUCKETS = 1024, ISO_MAXBLOCK = 4u << 20, ISO_MAXCACHED = 512u << 20;
+static IsoHdr *g_freeList[ISO_BUCKETS];
+static size_t g_cached = 0;
+static volatile char g_allocLock = 0;
+static inline void isoLock() { while(__sync_lock_test_and_set(&g_allocLock, 1)) { } }
+static inline void isoUnlock() { __sync_lock_release(&g_allocLock); }
+static inline size_t isoBucket(size_t n) { return (n * 2654435761u >> 7) % ISO_BUCKETS; }
 // g_fill = 0: zeros; otherwise a fixed byte SEQUENCE seeded by g_fill (a uniform byte can land where it is harmless:
 // 0xA5 written to FM register 0xA5 is inaudible), the same in every process and for every allocation
 static inline void *fillNew(size_t n)
 {
     if(!n) n = 1;
-    uint8_t *p = (uint8_t *)malloc(n);
-    if(!p) return NULL;
+    if(g_recycle && n <= ISO_MAXBLOCK)
+    {
+        isoLock();
+        IsoHdr **pp = &g_freeList[isoBucket(n)];
+        while(*pp && (*pp)->n != n) pp = &(*pp)->next;
+        IsoHdr *h = *pp;
+        if(h) { *pp = h->next; g_cached -= n; }
+        isoUnlock();
+        if(h) { ISO_UNPOISON(h + 1, n); return h + 1; }           // recycled: content as the previous owner left it
+    }
+    IsoHdr *h = (IsoHdr *)malloc(sizeof(IsoHdr) + n);
+    if(!h) return NULL;
+    h->n = n; h->next = NULL;
+    uint8_t *p = (uint8_t *)(h + 1);
     if(g_fill == 0) memset(p, 0, n);
     else for(size_t i = 0; i < n; ++i) p[i] = (uint8_t)(g_fill + i * 0x3D + (i >> 2) * 0x11);
     return p;
+}
+static inline void freeNew(void *p)
+{
+    if(!p) return;
+    IsoHdr *h = (IsoHdr *)p - 1;
+    if(g_recycle && h->n <= ISO_MAXBLOCK && g_cached + h->n <= ISO_MAXCACHED)
+    {
+        ISO_POISON(p, h->n);
+        isoLock();
+        IsoHdr **pp = &g_freeList[isoBucket(h->n)];
+        h->next = *pp; *pp = h; g_cached += h->n;
+        isoUnlock();
+        return;
+    }
+    free(h);
 }
 void *operator new(size_t n) { void *p = fillNew(n); if(!p) throw std::bad_alloc(); return p; }
 void *operator new[](size_t n) { void *p = fillNew(n); if(!p) throw std::bad_alloc(); return p; }
 void *operator new(size_t n, const std::nothrow_t &) noexcept { return fillNew(n); }
 void *operator new[](size_t n, const std::nothrow_t &) noexcept { return fillNew(n); }
-void operator delete(void *p) noexcept { free(p); }
-void operator delete[](void *p) noexcept { free(p); }
-void operator delete(void *p, size_t) noexcept { free(p); }
-void operator delete[](void *p, size_t) noexcept { free(p); }
+void operator delete(void *p) noexcept { freeNew(p); }
+void operator delete[](void *p) noexcept { freeNew(p); }
+void operator delete(void *p, size_t) noexcept { freeNew(p); }
+void operator delete[](void *p, size_t) noexcept { freeNew(p); }
+void operator delete(void *p, const std::nothrow_t &) noexcept { freeNew(p); }
+void operator delete[](void *p, const std::nothrow_t &) noexcept { freeNew(p); }
 #endif
 static void setFill(int v)
 {
@@ -83,13 +137,24 @@ static void setFill(int v)
 #endif
 }
 
+// Besides the hash of the whole stream the tap keeps the first MAXPAN panning decisions of the call in clear: the value
+// handed to writePan ('P': chip, channel, value) and the L/R output bits of the 0xB4..0xB6 write that OPN2::setPan makes right
+// after it.  spec/Isolation.tla says what they are for the instance's own soft-pan setting and pan controllers.
+static const int MAXPAN = 24;
 struct ITap
 {
     uint64_t h; long n;
-    void clear() { h = 1469598103934665603ULL; n = 0; }
+    int npw, nlr; bool afterP; uint8_t pw[MAXPAN], lr[MAXPAN];
+    void clear() { h = 1469598103934665603ULL; n = 0; npw = 0; nlr = 0; afterP = false; }
     static void cb(void *ud, int kind, size_t chip, unsigned a, unsigned b, unsigned c)
     {
         ITap *t = (ITap *)ud;
+        if(kind == 'P') { if(t->npw < MAXPAN) t->pw[t->npw++] = (uint8_t)b; t->afterP = true; }
+        else
+        {
+            if(kind == 'W' && t->afterP && (b & 0xFC) == 0xB4 && t->nlr < MAXPAN) t->lr[t->nlr++] = (uint8_t)((c >> 6) & 3);
+            t->afterP = false;
+        }
         const unsigned v[5] = {(unsigned)kind, (unsigned)chip, a, b, c};
         for(int i = 0; i < 5; ++i)
             for(int s = 0; s < 32; s += 8) { t->h ^= (v[i] >> s) & 0xFF; t->h *= 1099511628211ULL; }
@@ -106,7 +171,8 @@ struct Inst
 struct Obs
 {
     long long r, tn, nz; int hasPcm; uint64_t pcm, tap;
-    Obs() : r(0), tn(0), nz(0), hasPcm(0), pcm(0), tap(0) {}
+    int npw, nlr; uint8_t pw[MAXPAN], lr[MAXPAN];
+    Obs() : r(0), tn(0), nz(0), hasPcm(0), pcm(0), tap(0), npw(0), nlr(0) {}
 };
 
 static void putVlq(std::vector<uint8_t> &o, unsigned v)
@@ -195,8 +261,28 @@ static bool doCall(Inst &in, const JV &c, Obs &o)
         o.r = r1 * 16 + r2;
     }
     else if(!in.dev) { o.r = -99; }
-    else if(e == "On") { opn2_rt_patchChange(in.dev, 0, (OPN2_UInt8)c.get("p", 0)); o.r = opn2_rt_noteOn(in.dev, 0, (OPN2_UInt8)c.get("k", 60), 100); }
-    else if(e == "Off") opn2_rt_noteOff(in.dev, 0, (OPN2_UInt8)c.get("k", 60));
+    else if(e == "On")
+    {
+        OPN2_UInt8 ch = (OPN2_UInt8)c.get("ch", 0);
+        opn2_rt_patchChange(in.dev, ch, (OPN2_UInt8)c.get("p", 0));
+        o.r = opn2_rt_noteOn(in.dev, ch, (OPN2_UInt8)c.get("k", 60), (OPN2_UInt8)c.get("vel", 100));
+    }
+    else if(e == "Off") opn2_rt_noteOff(in.dev, (OPN2_UInt8)c.get("ch", 0), (OPN2_UInt8)c.get("k", 60));
+    else if(e == "Ctl") opn2_rt_controllerChange(in.dev, (OPN2_UInt8)c.get("ch", 0), (OPN2_UInt8)c.get("c", 10), (OPN2_UInt8)c.get("v", 64));
+    else if(e == "Bend") opn2_rt_pitchBend(in.dev, (OPN2_UInt8)c.get("ch", 0), (OPN2_UInt16)c.get("v", 8192));
+    else if(e == "Set")        // per-instance switches of the API; field s names the setter
+    {
+        const std::string sn = c.gets("s");
+        int v = (int)c.get("v", 0);
+        if(sn == "softpan") opn2_setSoftPanEnabled(in.dev, v);
+        else if(sn == "bright") opn2_setFullRangeBrightness(in.dev, v);
+        else if(sn == "smod") opn2_setScaleModulators(in.dev, v);
+        else if(sn == "vmodel") opn2_setVolumeRangeModel(in.dev, v);
+        else if(sn == "lfofreq") opn2_setLfoFrequency(in.dev, v);
+        else if(sn == "arp") opn2_setAutoArpeggio(in.dev, v);
+        else if(sn == "alloc") opn2_setChannelAllocMode(in.dev, v);
+        else return false;
+    }
     else if(e == "Gen" || e == "Play")
     {
         long long fr = c.get("fr", 256);
@@ -219,6 +305,8 @@ static bool doCall(Inst &in, const JV &c, Obs &o)
     else if(e == "Close") { opn2_close(in.dev); in.dev = NULL; }
     else return false;
     o.tap = in.tap.h; o.tn = in.tap.n;
+    o.npw = in.tap.npw; o.nlr = in.tap.nlr;
+    memcpy(o.pw, in.tap.pw, sizeof o.pw); memcpy(o.lr, in.tap.lr, sizeof o.lr);
     return true;
 }
 
@@ -227,8 +315,13 @@ static void obsJson(const Obs &o, std::string &s)
     char b[200];
     char pcm[24] = "";
     if(o.hasPcm) snprintf(pcm, sizeof pcm, "%016llx", (unsigned long long)o.pcm);
-    snprintf(b, sizeof b, "\"r\":%lld,\"pcm\":\"%s\",\"nz\":%lld,\"tap\":\"%016llx\",\"tn\":%lld}", o.r, pcm, o.nz, (unsigned long long)o.tap, o.tn);
+    snprintf(b, sizeof b, "\"r\":%lld,\"pcm\":\"%s\",\"nz\":%lld,\"tap\":\"%016llx\",\"tn\":%lld", o.r, pcm, o.nz, (unsigned long long)o.tap, o.tn);
     s += b;
+    s += ",\"pw\":[";
+    for(int q = 0; q < o.npw; ++q) { snprintf(b, sizeof b, q ? ",%d" : "%d", (int)o.pw[q]); s += b; }
+    s += "],\"lr\":[";
+    for(int q = 0; q < o.nlr; ++q) { snprintf(b, sizeof b, q ? ",%d" : "%d", (int)o.lr[q]); s += b; }
+    s += "]}";
 }
 
 struct Exec
@@ -275,6 +368,7 @@ static int childRun(const Exec &ex, int which, int fd)
     setFill(0);
     if(which < 0)
     {
+        g_recycle = 1;       // the instances of the observed run share one heap: released blocks come back as they were left
         std::vector<Obs> obs(ex.cmds.size());
         Inst inst[MAXI];
         if(!ex.par)
